@@ -78,3 +78,29 @@ claim("C10",
       "followed by PING/ECHO and GET to show the connection is unaffected; model and implementation must both reject with zero calls.",
       CONN_TB + "Null / non-numeric / SET-clash rejections are established on the model by exhaustive correspondence enumeration and concrete vm_compute examples, not yet by a general theorem per position.",
       "Coq theorems (no partial execution; missing/dangling arguments refused) + exhaustive malformation enumeration against the real loop")
+MULTI_TB = CONN_TB + "Several connections are modelled as request-level interleavings over one shared server and handler state (Multi.mstep); the command lock of the code makes that the real granularity. "
+claim("C07",
+      "Theorems, for every handler that returns: one loop iteration never panics for ANY request value (empty / null / nested command arrays, every command with every argument "
+      "vector; GETRANGE index arithmetic proved inside the value over all of Z; nil handler results everywhere); the parser and the whole connection loop never panic or diverge on "
+      "ANY byte string; in a system of any number of connections a step of one connection leaves every other connection's state and log untouched and never sets the panic flag. "
+      "Runtime half observed: offender + witness connections on one server with the bundled example store and with the handler double - ~900 boundary-argument requests against "
+      "populated keys of every type, hostile frames and stream ends, very long requests, random cut pipelines, EOF/reset/write-failure endings; the witness must get exact replies, "
+      "the process must survive.",
+      MULTI_TB + "Partial: process survival and the example store's robustness are observed, not proved (the example store is not modelled function by function).",
+      "Coq theorems (panic-freedom of framework and parser, isolation) + offender/witness differential runs incl. the example store")
+claim("C08",
+      "Theorems, for every handler, any number of connections and EVERY interleaving of their requests: a connection on which any handler or application executor was invoked has an AUTH "
+      "with exactly the configured password (default user) among its own earlier processed requests; AUTH succeeds iff its credentials are exactly ('', password); a refused AUTH leaves "
+      "authorization and database unchanged; an unauthorized connection produces no call for a request of any shape; a step of one connection never changes another. Correspondence: "
+      "all histories of length <= 2 over the full candidate dictionary (every prefix, extension, case swap, NUL/CRLF, null/missing, two-argument forms) and length 3 over a reduced one "
+      "on one connection, all interleavings of pairs of histories on two, random on three; independent Python oracle for 'exact password'.",
+      MULTI_TB + "The password is the one installed by Start (SetRequirePass before Start).",
+      "Coq invariant proof over all interleavings (password gate) + exhaustive short-history enumeration against the real loop")
+claim("C13",
+      "Theorems, for every handler and EVERY interleaving: the state of connection i (database, authorization, credentials) equals the fold of cs_step - a function of the authenticator "
+      "list, that connection's previous state and the request only - over connection i's own processed requests from the defaults; every handler call carries the database and "
+      "authorization of the issuing connection as of before the request; a step of j != i leaves connection i untouched. Correspondence: 2..8 scripted connections under the race "
+      "detector, all interleavings of two systematic histories, sequential reuse, random lock-step and free parallel interleavings; each call's database / authorization / "
+      "per-connection user data checked against the connection's own history by a Python oracle and against the model.",
+      MULTI_TB + "Per-connection user data (sync.Map) is exercised by the handler double and checked by the oracle; it is not part of the Coq connection state.",
+      "Coq theorem (own-history fold, frame) + concurrent differential runs under the race detector")
